@@ -190,8 +190,16 @@ fn case(rep: &mut Report, seed: u64, index: u64) {
                 }
                 for logical in fam {
                     if r.chance(1, 2) {
-                        let (sp, ty) = logical[r.below(logical.len())];
+                        let k = r.below(logical.len());
+                        let (sp, ty) = logical[k];
                         props.push((sp.to_owned(), gen_value(&g, r, sp, ty)));
+                        // one instance in five also carries a SECOND spelling of the same logical property (with another
+                        // value): whatever it shows alone is what it must show in the group, and what the writer learns
+                        // from such an instance must not hurt a sibling that has only one of the spellings
+                        if logical.len() >= 2 && r.chance(1, 5) {
+                            let (sp2, ty2) = logical[(k + 1 + r.below(logical.len() - 1)) % logical.len()];
+                            props.push((sp2.to_owned(), gen_value(&g, r, sp2, ty2)));
+                        }
                     }
                 }
                 props
